@@ -481,7 +481,9 @@ def slice_dim(f, slicedef, fuzzydim=True):
     slicedef = slicedef.split(',')
     slicedef = [slicedef[0]] + list(map(eval, slicedef[1:]))
     if len(slicedef) == 2:
-        slicedef.append(slicedef[-1] + 1)
+        # a single index i selects [i:i+1]; for the last element (-1) the
+        # stop is the end of the axis, not 0
+        slicedef.append(slicedef[-1] + 1 if slicedef[-1] != -1 else None)
     slicedef = (slicedef + [None, ])[:4]
     dimkey, dmin, dmax, dstride = slicedef
     if dimkey not in inf.dimensions:
